@@ -105,7 +105,7 @@ pub fn runner(seed: u64, tag: &str, cases: u32) -> TestRunner {
     for i in 0..4 {
         bytes[i * 8..i * 8 + 8].copy_from_slice(&mix(s, &format!("k{i}")).to_le_bytes());
     }
-    let cfg = Config { cases, failure_persistence: None, max_shrink_iters: 4000, rng_seed: RngSeed::Fixed(s), ..Config::default() };
+    let cfg = Config { cases, failure_persistence: None, max_shrink_iters: 3000, rng_seed: RngSeed::Fixed(s), ..Config::default() };
     TestRunner::new_with_rng(cfg, TestRng::from_seed(RngAlgorithm::ChaCha, &bytes))
 }
 
